@@ -1,9 +1,177 @@
-(* C02 — exported theorems only: each is closed by [exact] and followed by Print Assumptions. *)
-From Coq Require Import List ZArith Bool.
-From Verif Require Import C02.Model C02.Spec C02.Proofs.
+(* C02 — exported theorems only: each is closed by [exact] and followed by Print Assumptions.
+   All statements are for every sibling list (any length) and every total; the only hypotheses
+   are the range guard [in_range] (non-negative values) and [names_ok] (names are 1..k). *)
+From Coq Require Import List ZArith Bool Permutation.
+From Verif Require Import C02.Model C02.Spec C02.Case C02.Proofs_Hamilton C02.Proofs_Iterate
+  C02.Proofs C02.Proofs_Perm C02.Proofs_Spec C02.Proofs_Case.
+Import ListNotations.
 Open Scope Z_scope.
 
+(* ---- 1. computeHamiltonDeltas is exact: no unit is created or dropped by rounding ---- *)
+Theorem c02_hamilton_exact : forall T W ns,
+  0 < T -> 0 < W -> (forall n, In n ns -> 0 <= weight n) ->
+  W = sumZ (map weight ns) -> NoDup (map nm ns) ->
+  hamilton T W ns = map (delta_of T W ns) ns
+  /\ sumZ (hamilton T W ns) = T
+  /\ forall n, In n ns ->
+       (delta_of T W ns n = weight n * T / W \/ delta_of T W ns n = weight n * T / W + 1)
+       /\ - W < delta_of T W ns n * W - weight n * T < W
+       /\ (weight n = 0 -> delta_of T W ns n = 0).
+Proof. exact hamilton_exact. Qed.
+Print Assumptions c02_hamilton_exact.
+
+(* within one round, shares are proportional to the weights up to one unit each *)
+Theorem c02_fair_round : forall T W ns a b,
+  0 < W -> (forall n, In n ns -> 0 <= weight n) ->
+  W = sumZ (map weight ns) -> NoDup (map nm ns) -> In a ns -> In b ns ->
+  Z.abs (delta_of T W ns a * weight b - delta_of T W ns b * weight a) <= weight a + weight b.
+Proof. exact delta_fair. Qed.
+Print Assumptions c02_fair_round.
+
+(* ---- 2. per-sibling bounds (needs no range guard at all) ---- *)
 Theorem c02_init_bounds : forall n,
   Z.min (request n) (eff_min n) <= init_runtime n <= Z.max (request n) (eff_min n).
 Proof. exact init_runtime_bounds. Qed.
 Print Assumptions c02_init_bounds.
+
+Theorem c02_bounds : forall total ns,
+  names_ok ns ->
+  forall n, In n ns -> bounds_ok (obs_of ns (redistribution total ns)) n.
+Proof. exact bounds_proved. Qed.
+Print Assumptions c02_bounds.
+
+(* the same on the result list itself: every sibling has exactly one entry, within bounds *)
+Theorem c02_entry_bounds : forall total ns n,
+  In n ns ->
+  exists r, In (n, r) (redistribution total ns)
+    /\ Z.min (request n) (eff_min n) <= r <= Z.max (request n) (eff_min n)
+    /\ (lend n = false -> eff_min n <= r)
+    /\ (needs_adjust n = true -> eff_min n <= r <= request n)
+    /\ (needs_adjust n = false -> r = init_runtime n).
+Proof. exact redistribution_entry. Qed.
+Print Assumptions c02_entry_bounds.
+
+Theorem c02_same_nodes : forall total ns,
+  Permutation (map fst (redistribution total ns)) ns.
+Proof. exact redistribution_fst_perm. Qed.
+Print Assumptions c02_same_nodes.
+
+(* ---- 3. conservation, work conservation, fuel ---- *)
+Theorem c02_conservation : forall total ns,
+  (forall n, In n ns -> 0 <= weight n) -> names_ok ns ->
+  conservation_ok total ns (obs_of ns (redistribution total ns)).
+Proof. exact conservation_proved. Qed.
+Print Assumptions c02_conservation.
+
+Theorem c02_work_conserving : forall total ns,
+  (forall n, In n ns -> 0 <= weight n) -> names_ok ns ->
+  work_conserving total ns (obs_of ns (redistribution total ns)).
+Proof. exact work_conserving_proved. Qed.
+Print Assumptions c02_work_conserving.
+
+(* running out of fuel is unreachable: any fuel above the number of entries gives the same
+   run as the fuel [S (length adj)] used by [redistribution] *)
+Theorem c02_fuel_irrelevant : forall k f T W es,
+  (length es < f)%nat -> iterate (k + f) T W es = iterate f T W es.
+Proof. exact iterate_fuel_enough. Qed.
+Print Assumptions c02_fuel_irrelevant.
+
+(* ---- 4. the division does not depend on iteration order ---- *)
+Theorem c02_perm_invariant : forall total ns ns',
+  Permutation ns ns' -> NoDup (map nm ns) ->
+  forall k, runtime_of k (redistribution total ns') = runtime_of k (redistribution total ns).
+Proof. exact perm_invariant. Qed.
+Print Assumptions c02_perm_invariant.
+
+Theorem c02_perm_result : forall total ns ns',
+  Permutation ns ns' -> NoDup (map nm ns) ->
+  Permutation (redistribution total ns) (redistribution total ns').
+Proof. exact redistribution_perm. Qed.
+Print Assumptions c02_perm_result.
+
+(* the two runs compared by the harness (insertion order and its reverse) have equal observables *)
+Theorem c02_rev_same_obs : forall total ns,
+  NoDup (map nm ns) ->
+  obs_of ns (redistribution total (rev ns)) = obs_of ns (redistribution total ns).
+Proof. exact rev_same_obs. Qed.
+Print Assumptions c02_rev_same_obs.
+
+(* ---- 5. fairness over the whole run ---- *)
+Theorem c02_fair : forall total ns,
+  (forall n, In n ns -> 0 <= weight n) -> names_ok ns ->
+  fair ns (obs_of ns (redistribution total ns)).
+Proof. exact fair_proved. Qed.
+Print Assumptions c02_fair.
+
+(* ---- 6. capstone: the model satisfies the specification, and the decision procedure that
+        bin/check runs on the implementation's observable decides exactly that Prop ---- *)
+Theorem c02_model_satisfies_spec : forall total ns,
+  in_range total ns = true -> names_ok ns ->
+  C02_holds total ns (obs_of ns (redistribution total ns)).
+Proof. exact model_satisfies_spec. Qed.
+Print Assumptions c02_model_satisfies_spec.
+
+Theorem c02_prop_code_sound : forall total ns obs,
+  prop_code total ns obs = 0 -> C02_holds total ns obs.
+Proof. exact prop_code_sound. Qed.
+Print Assumptions c02_prop_code_sound.
+
+Theorem c02_prop_code_complete : forall total ns obs,
+  C02_holds total ns obs -> prop_code total ns obs = 0.
+Proof. exact prop_code_complete. Qed.
+Print Assumptions c02_prop_code_complete.
+
+Theorem c02_prop_code_model : forall total ns,
+  in_range total ns = true -> names_ok ns ->
+  prop_code total ns (obs_of ns (redistribution total ns)) = 0.
+Proof. exact (fun total ns Hr Hok => prop_code_complete _ _ _ (model_satisfies_spec total ns Hr Hok)). Qed.
+Print Assumptions c02_prop_code_model.
+
+(* the same at the level of the extracted entry points that bin/check runs ([Case.v]):
+   the model's observable passes [prop_case] on every well-formed input, and an observable
+   (the implementation's) on which [prop_case] returns 0 is two equal runs satisfying the Prop *)
+Theorem c02_prop_case_model : forall inp,
+  in_range (fst (decode inp)) (snd (decode inp)) = true -> names_ok (snd (decode inp)) ->
+  prop_case inp (run_case inp) = 0.
+Proof. exact prop_case_model. Qed.
+Print Assumptions c02_prop_case_model.
+
+Theorem c02_prop_case_sound : forall inp obs,
+  prop_case inp obs = 0 ->
+  let total := fst (decode inp) in let ns := snd (decode inp) in
+  firstn (length ns) obs = skipn (length ns) obs
+  /\ C02_holds total ns (firstn (length ns) obs).
+Proof. exact prop_case_sound. Qed.
+Print Assumptions c02_prop_case_sound.
+
+(* ---- non-vacuity: the hypotheses are satisfiable by an input that runs three rounds, with
+        a zero-weight sibling, a non-lending sibling below its minimum and a +1 winner ---- *)
+Definition ex_ns : list node :=
+  [ mkNode 1 100 3 10 0 true; mkNode 2 20 1 5 8 false; mkNode 3 50 0 0 0 true;
+    mkNode 4 4 2 6 0 false; mkNode 5 40 2 6 0 true ].
+
+Example c02_hyps_nonvacuous : in_range 130 ex_ns = true /\ names_ok ex_ns.
+Proof.
+  split; [reflexivity|]. split.
+  - repeat constructor; cbn; intuition discriminate.
+  - intros n Hn. cbn in Hn.
+    repeat (destruct Hn as [<-|Hn]; [cbn; split; discriminate|]). destruct Hn.
+Qed.
+
+Example c02_example_run :
+  obs_of ex_ns (redistribution 130 ex_ns) = [64; 20; 0; 6; 40]
+  /\ obs_of ex_ns (redistribution 97 ex_ns) = [44; 19; 0; 6; 28]
+  /\ obs_of ex_ns (redistribution 20 ex_ns) = [10; 8; 0; 6; 6].
+Proof. vm_compute. auto. Qed.
+
+(* the hypotheses of c02_hamilton_exact are satisfiable with a non-zero residual *)
+Example c02_hamilton_nonvacuous :
+  let ns := [mkNode 1 0 3 0 0 true; mkNode 2 0 1 0 0 true; mkNode 3 0 0 0 0 true; mkNode 4 0 2 0 0 true] in
+  0 < 10 /\ 6 = sumZ (map weight ns) /\ NoDup (map nm ns)
+  /\ (forall n, In n ns -> 0 <= weight n) /\ hamilton 10 6 ns = [5; 2; 0; 3].
+Proof.
+  cbv zeta. split; [reflexivity|]. split; [reflexivity|]. split.
+  - repeat constructor; cbn; intuition discriminate.
+  - split; [|reflexivity]. intros n Hn. cbn in Hn.
+    repeat (destruct Hn as [<-|Hn]; [cbn; discriminate|]). destruct Hn.
+Qed.
